@@ -40,7 +40,7 @@ AttrSet(s) == {Pair(s[i]) : i \in 1..Len(s)}
 (* eigenvalue lists: <<re, im>> dyadic pairs, sorted by the harness.  Results that pass through *)
 (* ARPACK (random start vector) cannot be bit-identical; they are compared with the first of the *)
 (* NREF reference runs (same definition, same reference history, fresh objects) at               *)
-(*     |x - ref| <= 2^-Tol * |ref| + SpreadMult * (max - min of the reference runs),             *)
+(*     |x - ref| <= 2^-Tol * |eigenvalue| + SpreadMult * (max - min of the reference runs),      *)
 (* i.e. at the precision the solver itself shows for identical inputs.                           *)
 RefLists(m) == IF m \in DOMAIN Ev.refs THEN Ev.refs[m] ELSE <<>>
 RECURSIVE RMaxOver(_, _, _, _)
@@ -50,13 +50,14 @@ RECURSIVE RMinOver(_, _, _, _)
 RMinOver(lists, i, c, k) == IF k > Len(lists) THEN Obs(lists[1][i][c])
                             ELSE RMin(Obs(lists[k][i][c]), RMinOver(lists, i, c, k + 1))
 Slack(lists, i, c) == RMul(RFromInt(SpreadMult), RSub(RMaxOver(lists, i, c, 1), RMinOver(lists, i, c, 1)))
-ValClose(x, y, slack) ==
-    LET a == Obs(x)
-        b == Obs(y)
-    IN RLe(RAbs(RSub(a, b)), RAdd(RMul(RMax(RAbs(a), RAbs(b)), RTwoPow(-Tol)), slack))
+(* the scale of a complex eigenvalue is its larger component, in either operand *)
+Scale(u, v) == RMax(RMax(RAbs(Obs(u[1])), RAbs(Obs(u[2]))), RMax(RAbs(Obs(v[1])), RAbs(Obs(v[2]))))
+ValClose(x, y, scale, slack) ==
+    RLe(RAbs(RSub(Obs(x), Obs(y))), RAdd(RMul(scale, RTwoPow(-Tol)), slack))
 EigClose(u, v, lists) ==
     /\ Len(u) = Len(v)
-    /\ \A i \in 1..Len(u) : \A c \in 1..2 : ValClose(u[i][c], v[i][c], Slack(lists, i, c))
+    /\ \A i \in 1..Len(u) : \A c \in 1..2 :
+           ValClose(u[i][c], v[i][c], Scale(u[i], v[i]), Slack(lists, i, c))
 HasRef(s) == Len(s.eig) > 0 /\ Len(RefLists(s.m)) > 0
 SameRef(s) == IF HasRef(s) THEN EigClose(s.eig, RefLists(s.m)[1], RefLists(s.m)) ELSE s.eqRef
 SamePrev(s, prev) == IF ~s.rep THEN TRUE
